@@ -188,6 +188,23 @@ def run_api(case):
     old_split = SETTINGS.plot_split
     try:
         targets = api_targets(case, d)
+        if case.get("second_save"):
+            # the target does not exist yet and is first created by an earlier guarded save IN THIS PROCESS (no prompt is
+            # due for it); the file is then given the sentinel content and the scripted save below has to ask
+            import contextlib
+            first = targets[0] if case["pk"] == "str" else pathlib.Path(targets[0])
+            with Script([]) as sc0, contextlib.redirect_stdout(io.StringIO()):
+                if case["writer"] == "write_tum_trajectory_file":
+                    file_interface.write_tum_trajectory_file(first, small_traj(), confirm_overwrite=True)
+                elif case["writer"] == "write_kitti_poses_file":
+                    file_interface.write_kitti_poses_file(first, small_traj(), confirm_overwrite=True)
+                elif case["writer"] == "save_res_file":
+                    file_interface.save_res_file(first, small_result(), confirm_overwrite=True)
+                else:
+                    raise common.HarnessError("second_save is not defined for " + case["writer"])
+            if sc0.prompts:
+                return {"prompts": [], "n_prompts": 0, "n_warned": 0, "changed": [], "fresh": [], "extra_files": [], "handle_len": None,
+                        "error": "a prompt appeared when saving to a path that did not exist"}
         for k, ex in enumerate(case["exists"]):
             if ex:
                 with open(targets[k], "wb") as f:
@@ -582,6 +599,11 @@ def api_cases(ctx):
             for ans in [("n", "n"), ("y", "n"), ("", "y")]:
                 add("PlotCollection.export", "str", [False] + list(ex), list(ans), True, ext=ext, variant=variant, nfig=2,
                     empty=True)
+    # a second guarded save to a path that an earlier save of the same process created: it exists now, the prompt is due
+    for w, kw in (("write_tum_trajectory_file", {"ext": ".tum"}), ("write_kitti_poses_file", {"ext": ".kitti"}), ("save_res_file", {"ext": ".zip"})):
+        for pk in ("str", "path"):
+            for a in ("n", "", "y"):
+                add(w, pk, [True], [a], True, second_save=True, **kw)
     # output names without an extension, next to pre-existing files that differ only by an extension
     for w, kw in (("main_config.generate", {"ext": ""}), ("write_tum_trajectory_file", {"ext": ""}), ("save_res_file", {"ext": ""})):
         for ex in (True, False):
